@@ -863,6 +863,24 @@ func nonSelectorKeys(ch []c08Dirs) map[string]bool {
 	return out
 }
 
+// selectorKeys: keys set by commonLabels or by labels entries with includeSelectors.
+func selectorKeys(ch []c08Dirs) map[string]bool {
+	out := map[string]bool{}
+	for _, d := range ch {
+		for _, p := range d.CommonLabels {
+			out[p.K] = true
+		}
+		for _, e := range d.Labels {
+			if e.IncludeSelectors {
+				for _, p := range e.Pairs {
+					out[p.K] = true
+				}
+			}
+		}
+	}
+	return out
+}
+
 func chainHasSelectors(ch []c08Dirs) bool {
 	for _, d := range ch {
 		if len(d.CommonLabels) > 0 {
@@ -911,28 +929,6 @@ func expectedLabels(in []c08kv, ch []c08Dirs, which int) []c08kv {
 		apply(d.CommonLabels)
 	}
 	return cur
-}
-
-// keySetTwice: two directives of the chain set the key to different values.
-func keySetTwice(ch []c08Dirs, key string) bool {
-	vals := []string{}
-	add := func(l []c08kv) {
-		if v, ok := lookupKV(l, key); ok {
-			vals = append(vals, v)
-		}
-	}
-	for _, d := range ch {
-		for _, e := range d.Labels {
-			add(e.Pairs)
-		}
-		add(d.CommonLabels)
-	}
-	for i := 1; i < len(vals); i++ {
-		if vals[i] != vals[0] {
-			return true
-		}
-	}
-	return false
 }
 
 func firstDiffKey(want, got []c08kv) string {
@@ -1055,13 +1051,12 @@ func oracles08(r *Run, t *c08Tree, flat []flatRes, bo buildOut) {
 		}
 		ios = append(ios, io{fr, in.YNode(), out.YNode()})
 	}
+	// Only one failure shape of own_selector / selects_preserved is a listed finding (documented behaviour): the
+	// broken key was written by a labels entry WITHOUT includeSelectors although a selector uses it - either the
+	// input selector or a commonLabels / includeSelectors directive of the chain put it there.
 	classify := func(law string, fr flatRes, key string, selIn []c08kv) string {
-		if keySetTwice(fr.Chain, key) {
-			// the key is set by two directives of the chain with different values: the entries the first one
-			// created share one yaml.Node, the second one overwrites all of them
-			return "C08/" + law + "/shared-node-overwrite"
-		}
-		if _, had := lookupKV(selIn, key); had && nonSelectorKeys(fr.Chain)[key] {
+		_, had := lookupKV(selIn, key)
+		if nonSelectorKeys(fr.Chain)[key] && (had || selectorKeys(fr.Chain)[key]) {
 			return "C08/" + law + "/selected-key-overridden-without-includeSelectors"
 		}
 		return "C08/" + law
@@ -1097,7 +1092,7 @@ func oracles08(r *Run, t *c08Tree, flat []flatRes, bo buildOut) {
 				want = expectedLabels(selIn, x.fr.Chain, 2)
 			}
 			if got := selOf(x.out); !kvEq(want, got) {
-				report("no_selector_change", classify("selector_union", x.fr, firstDiffKey(want, got), nil),
+				report("no_selector_change", "C08/selector_union",
 					fmt.Sprintf("%s %s: selector %v, expected %v (labels without includeSelectors must not reach it)", kind, x.fr.Res.Name, got, want))
 			}
 		}
@@ -1109,7 +1104,7 @@ func oracles08(r *Run, t *c08Tree, flat []flatRes, bo buildOut) {
 				want := expectedLabels(lmapOf(getAt(x.in, []string{"metadata", "labels"})), x.fr.Chain, 0)
 				got := lmapOf(getAt(x.out, []string{"metadata", "labels"}))
 				if !kvEq(want, got) {
-					report("exact_locations", classify("metadata_union", x.fr, firstDiffKey(want, got), nil),
+					report("exact_locations", "C08/metadata_union",
 						fmt.Sprintf("%s %s: metadata.labels %v, expected %v", kind, x.fr.Res.Name, got, want))
 				}
 			}
@@ -1118,7 +1113,7 @@ func oracles08(r *Run, t *c08Tree, flat []flatRes, bo buildOut) {
 				want := expectedLabels(podLabelsOf(x.in), x.fr.Chain, 1)
 				got := podLabelsOf(x.out)
 				if !kvEq(want, got) {
-					report("exact_locations", classify("template_union", x.fr, firstDiffKey(want, got), nil),
+					report("exact_locations", "C08/template_union",
 						fmt.Sprintf("%s %s: pod template labels %v, expected %v", kind, x.fr.Res.Name, got, want))
 				}
 			}
